@@ -351,6 +351,11 @@ func (w *World) pairByOwner(owner string) *pairState {
 
 func (w *World) serveHTTP(ev *httpEvent) httpResult {
 	f := w.plan.Faults
+	if st := w.c20; st != nil {
+		st.mu.Lock()
+		st.hostsUsed[ev.host] = true
+		st.mu.Unlock()
+	}
 	src, gen, _, ok := parseHost(ev.host)
 	if !ok || gen != w.gen || w.srcs[src] == nil {
 		w.logf("http %s retired", ev.host)
@@ -425,7 +430,18 @@ func (w *World) serveHTTP(ev *httpEvent) httpResult {
 		}
 	}
 	n.Now = w.step
+	n.ViewLag = 0
+	if _, _, replica, _ := parseHost(ev.host); replica > 0 && w.faultsOn() && w.srcs[src].plan.LagMax > 0 {
+		// a lagging replica: the whole request is answered from a view that
+		// ends a few blocks below the head
+		n.ViewLag = w.st.Draw(w.srcs[src].plan.LagMax+1, "replica-lag")
+		if n.ViewLag > 0 {
+			w.stat("fault_replica_lag", 1)
+			w.stat("fault_total", 1)
+		}
+	}
 	replies := n.Serve(ev.host, ev.reqs, between)
+	n.ViewLag = 0
 	switch kind {
 	case hfRPCError:
 		i := w.st.Draw(len(replies), "rpc-error-at")
